@@ -49,3 +49,63 @@ Definition mm_init (mp : mapper) (psyms ssyms : list string) : option matrix :=
 Definition is_mapping (m : matrix) (ps ss : string) : option bool :=
   if sym_mem ps (mm_syms m) && sym_mem ss (mm_syms m)
   then Some (cell_mem ps ss (mm_valid m)) else None.
+
+(** * MappingMatrix.min_mapping_symbol
+
+    The row/column numbering of the matrix is the private dict [__s2i], filled by enumerating a
+    Python [set] of the registered symbols: its order depends on the string hashes
+    (PYTHONHASHSEED).  The order is a PARAMETER [ord] of the model (a duplicate-free listing of the
+    registered symbols); everything the code computes with numpy float64 is computed with integers
+    (all values are products of list lengths, far below 2^53).  *)
+
+Inductive mms_result :=
+| MMSValueError                               (* "Pattern has more symbols than structure." *)
+| MMSKeyError                                 (* a symbol that is not registered in __s2i *)
+| MMSOk (r : option (string * string)).
+
+(* __valid_mappings[s2i[i], s2i[j]] *)
+Definition vcell (m : matrix) (i j : string) : Z := if cell_mem i j (mm_valid m) then 1 else 0.
+
+(* _setup_vec(symbols): Counter -> vector; the vector is read through the symbol of each row.
+   None = KeyError on self.__s2i[s] *)
+Definition setup_vec (m : matrix) (syms : list string) : option (string -> Z) :=
+  if forallb (fun x => sym_mem x (mm_syms m)) syms then Some (fun c => count_sym c syms) else None.
+
+Definition zsum {A} (f : A -> Z) (l : list A) : Z := fold_right (fun a acc => f a + acc) 0 l.
+
+(* np.matmul(self.__valid_mappings, ss_vec)[i] *)
+Definition row_total (ord : list string) (m : matrix) (ssv : string -> Z) (i : string) : Z :=
+  zsum (fun j => vcell m i j * ssv j) ord.
+(* np.matmul(ps_vec.T, self.__valid_mappings)[j] *)
+Definition col_total (ord : list string) (m : matrix) (psv : string -> Z) (j : string) : Z :=
+  zsum (fun i => psv i * vcell m i j) ord.
+(* m_cnt[i, j] = (column vector x row vector)[i, j] * valid[i, j] *)
+Definition m_cnt (ord : list string) (m : matrix) (psv ssv : string -> Z) (c : string * string) : Z :=
+  row_total ord m ssv (fst c) * col_total ord m psv (snd c) * vcell m (fst c) (snd c).
+
+(* the cells in row-major order of the numbering *)
+Definition all_cells (ord : list string) : list (string * string) :=
+  flat_map (fun i => map (pair i) ord) ord.
+
+Fixpoint zmin_of (d : Z) (l : list Z) : Z :=
+  match l with [] => d | x :: t => zmin_of (Z.min d x) t end.
+
+Definition min_mapping_symbol (ord : list string) (m : matrix) (ps ss : list string) : mms_result :=
+  if (List.length ss <? List.length ps)%nat then MMSValueError
+  else
+    match setup_vec m ps with
+    | None => MMSKeyError
+    | Some psv =>
+        match setup_vec m ss with
+        | None => MMSKeyError
+        | Some ssv =>
+            let cnt := m_cnt ord m psv ssv in
+            let cells := all_cells ord in
+            match filter (fun x => negb (x =? 0)) (map cnt cells) with    (* m_cnt[np.nonzero(m_cnt)] *)
+            | [] => MMSOk None
+            | x :: t =>
+                let mn := zmin_of x t in                                   (* np.min(non_zero) *)
+                MMSOk (find (fun c => cnt c =? mn) cells)                  (* first cell of np.where(m_cnt == min) *)
+            end
+        end
+    end.
